@@ -34,6 +34,14 @@ Proof.
   - intros [= <- _]. reflexivity.
 Qed.
 
+From Lospan Require Import Model.Steps Proof.SchedProof.
+(* "Copies of one uplink received through several gateways produce a single answer" is FALSE of the model of
+   the present code when both handlers read the device before either stores the counter (witness schedule;
+   KNOWN_FINDINGS.txt: sched-copies-answered-twice). *)
+Theorem C09_concurrent_copies_answered_twice_refuted : length (flat_map w_fcnt_of (snd copies_result)) = 2%nat.
+Proof. exact concurrent_copies_answered_twice_refuted. Qed.
+
 Print Assumptions C09_at_most_one_answer.
 Print Assumptions C09_rejected_not_answered.
 Print Assumptions C09_ack_flag_cleared.
+Print Assumptions C09_concurrent_copies_answered_twice_refuted.
